@@ -119,6 +119,12 @@ impl<Db: Database> StorageManager<Db> {
         self.db.clone()
     }
 
+    /// Add-only accessor for the /verif harness: the transaction log and cache of this manager
+    #[cfg(feature = "verif_hooks")]
+    pub fn verif_parts(&self) -> (&Transaction, Option<&TimedCache>) {
+        (&self.transaction, self.cache.as_ref())
+    }
+
     /// Returns whether the storage manager has a cache
     pub fn has_cache(&self) -> bool {
         self.cache.is_some()
